@@ -159,17 +159,25 @@ claim('C16', 'proof',
       'Trusted: Lean kernel, py2lean, harness; float rounding outside the model.',
       'DESIGN.md 4 C16')
 claim('C04', 'proof',
-      'Lean 4 decide over the regenerated fill-selection tables + proved point predicates; exact cell-set specification (Lean Spec/CellBool) against the real sweep',
+      'Lean 4 decide over the regenerated fill-selection tables; literal models of the segment chainer, the selectors and the whole sweep pipeline (conservation, order independence, fill completeness, error classes) + model/code correspondence stage by stage; exact cell-set specification (Lean Spec/CellBool) against the real output',
       'The five 16-entry tables, the index formula of __select and the inversion flags are '
       'regenerated from boolean.py and proved to be the truth tables of the operations (every '
-      'cell, uniqueness: any wrong cell fails); point predicates characterised. The Martinez '
-      'sweep and the segment chainer are NOT modelled: the operation itself is decided by an '
-      'executable Lean specification (even-odd cell sets over Q) that certifies the loops '
-      'returned by the real code on lattice polygons (shared edges, corners, nesting, lists) '
-      'and by exact point membership + area identities in general position.',
-      'Trusted: Lean kernel, py2lean, harness, Spec/CellBool (small, lemmas proved). Partial: '
-      'global correctness of the sweep is not a theorem. One open finding (zero-length segment '
-      'on steep edges).',
+      'cell, uniqueness: any wrong cell fails); point predicates characterised. Model/Chainer, '
+      'BoolSelect, PolyBool transcribe _segmentChainer, __select (calling the generated tables) '
+      'and the _Intersecter sweep with events, status, divides, fill annotation, combine and the '
+      'public operations (exceptions as values): proved - chains always have >= 2 points; when '
+      'distinct end points are separated by the tolerance the chainer uses every input segment '
+      'exactly once, leaves open chains exactly at odd-degree vertices and its edge multiset '
+      'does not depend on the input order; a segment is kept iff its table entry is non-zero '
+      'and, if the four fill bits are geometrically correct, the kept segments are exactly the '
+      'boundary of op(A,B) with the right inside side; the sweep never emits an incomplete '
+      'fill, every output end point is an input vertex or a computed intersection point, the '
+      'only possible exceptions are the named ones. The operation as a whole is decided by an '
+      'executable Lean specification (even-odd cell sets over Q) on the real output.',
+      'Trusted: Lean kernel, py2lean, harness, model correspondence, Spec/CellBool. Partial: '
+      'that the sweep computes geometrically correct fill bits (hypothesis FillsCorrect) and '
+      'termination without fuel are not theorems. One open finding (zero-length segment on '
+      'steep edges), reproduced on the model.',
       'DESIGN.md 4 C04')
 claim('C06', 'proof',
       'Lean 4 theorems on generated Plane.__init__/xyz_to_xy/xy_to_xyz/flip/_normal_from_3pts + Newell lemma library; constructor oracle on the real code',
